@@ -98,6 +98,10 @@ type scmWorld struct {
 	f      faults
 	base   uint64
 	duties map[uint64]*synccommitteemessenger.Duty // by slot, rebuilt before each repetition
+	// period: the contribution indices shared by all duties of the repetition
+	// (inspected at quiescence only); altered: first difference found.
+	period  map[phase0.ValidatorIndex][]phase0.CommitteeIndex
+	altered string
 }
 
 const scmSlotsPerRep = 8
@@ -241,10 +245,15 @@ func buildSCMServices(clk *clock, accts *fixedAccounts, spe uint64, f faults) (*
 
 // newSyncDuty: a validator's account is missing (exited validator still in the
 // committee) where the fault script says so.
-func newSyncDuty(accts *fixedAccounts, nVals uint64, slot uint64, f faults) *synccommitteemessenger.Duty {
-	indices := make(map[phase0.ValidatorIndex][]phase0.CommitteeIndex, nVals)
-	for v := uint64(0); v < nVals; v++ {
-		indices[phase0.ValidatorIndex(v)] = []phase0.CommitteeIndex{phase0.CommitteeIndex(v), phase0.CommitteeIndex(v + 8)}
+//
+// indices is the validator -> committee indices map of the period.  The
+// controller (scheduleSyncCommitteeMessages) builds it once per period and gives
+// the SAME map to the duty of every slot, and the messenger keeps it as the
+// slot's verification record; so do the worlds here.  The harness never touches
+// a map it has handed over while roles run.
+func newSyncDuty(accts *fixedAccounts, nVals uint64, slot uint64, f faults, indices map[phase0.ValidatorIndex][]phase0.CommitteeIndex) *synccommitteemessenger.Duty {
+	if indices == nil {
+		indices = periodIndices(nVals)
 	}
 	d := synccommitteemessenger.NewDuty(phase0.Slot(slot), indices)
 	for v := uint64(0); v < nVals; v++ {
@@ -256,8 +265,34 @@ func newSyncDuty(accts *fixedAccounts, nVals uint64, slot uint64, f faults) *syn
 	return d
 }
 
+func periodIndices(nVals uint64) map[phase0.ValidatorIndex][]phase0.CommitteeIndex {
+	indices := make(map[phase0.ValidatorIndex][]phase0.CommitteeIndex, nVals)
+	for v := uint64(0); v < nVals; v++ {
+		indices[phase0.ValidatorIndex(v)] = []phase0.CommitteeIndex{phase0.CommitteeIndex(v), phase0.CommitteeIndex(v + 8)}
+	}
+	return indices
+}
+
+// indicesAltered compares a period's map with what it was built as ("" = equal).
+func indicesAltered(indices map[phase0.ValidatorIndex][]phase0.CommitteeIndex, nVals uint64) string {
+	want := periodIndices(nVals)
+	for v, w := range want {
+		got, ok := indices[v]
+		if !ok {
+			return fmt.Sprintf("validator %d has been removed", v)
+		}
+		if len(got) != len(w) || got[0] != w[0] || got[1] != w[1] {
+			return fmt.Sprintf("validator %d: %v instead of %v", v, got, w)
+		}
+	}
+	if len(indices) != len(want) {
+		return fmt.Sprintf("%d entries instead of %d", len(indices), len(want))
+	}
+	return ""
+}
+
 func (w *scmWorld) newDuty(slot uint64) *synccommitteemessenger.Duty {
-	return newSyncDuty(w.accts, w.nVals, slot, w.f)
+	return newSyncDuty(w.accts, w.nVals, slot, w.f, w.period)
 }
 
 func buildSCM(sc *Scenario) (world, error) {
@@ -272,7 +307,8 @@ func buildSCM(sc *Scenario) (world, error) {
 		return nil, err
 	}
 	w.msgr, w.agg = newGuardedMessenger(msgr), agg
-	// history of earlier slots (sequential)
+	// history of earlier slots (sequential), one period map for all of them
+	w.period = periodIndices(w.nVals)
 	for i := uint64(0); i < sc.P["pre"]; i++ {
 		slot := w.base - sc.P["pre"] + i
 		// (a scripted fault may make one of these fail: then that slot has no record)
@@ -288,6 +324,7 @@ func (w *scmWorld) slotOf(rep int, offset uint64) uint64 {
 func (w *scmWorld) prepare(rep int) {
 	w.clock.slot.Store(w.slotOf(rep, 0))
 	w.duties = map[uint64]*synccommitteemessenger.Duty{}
+	w.period = periodIndices(w.nVals)
 	for o := uint64(0); o < scmSlotsPerRep; o++ {
 		w.duties[w.slotOf(rep, o)] = w.newDuty(w.slotOf(rep, o))
 	}
@@ -330,22 +367,30 @@ func (w *scmWorld) run(rep int, _ int, _ *Role, op *Op, call uint64) {
 			}
 		}
 	case "verify":
-		if data, found := w.msgr.GetDataUsedForSlot(phase0.Slot(slot - 1)); found {
-			n := 0
-			for _, c := range data.ValidatorToCommitteeIndex {
-				n += len(c)
-			}
-			_ = n
-		}
+		// (what the record holds is vouch's to read - the controller does - not the harness')
+		_, _ = w.msgr.GetDataUsedForSlot(phase0.Slot(slot - 1))
 		w.msgr.RemoveHistoricDataUsedForSlotVerification(phase0.Slot(slot))
 	default:
 		panic("harness: unknown sync committee op " + op.K)
 	}
 }
 
-func (w *scmWorld) finish(int) string      { return "" }
-func (w *scmWorld) judge(ev.TB, *Scenario) {}
-func (w *scmWorld) close()                 {}
+// finish: at quiescence the period's contribution indices must be what the
+// controller built: a duty is input to Prepare / Message / the verification of
+// the next head, shared by every slot of the period, not theirs to alter.
+func (w *scmWorld) finish(rep int) string {
+	if why := indicesAltered(w.period, w.nVals); why != "" && w.altered == "" {
+		w.altered = fmt.Sprintf("after repetition %d: %s", rep, why)
+	}
+	return ""
+}
+
+func (w *scmWorld) judge(t ev.TB, sc *Scenario) {
+	if w.altered != "" {
+		ev.Violation(t, "duty-contribution-indices-altered", sc, "the contribution indices shared by the duties of a period were altered by the messenger: %s", w.altered)
+	}
+}
+func (w *scmWorld) close() {}
 
 func init() {
 	register(&svcDef{
